@@ -1079,29 +1079,67 @@ FORMATS = {
 }
 
 
+class ImplTimeout(Exception):
+    """A call into the implementation did not return within its time limit (treated as a failing input, never as slowness of the
+    check: the limit is more than a hundred times what the slowest call takes on a loaded machine)."""
+
+
+IMPL_LIMIT_S = 60.0
+IMPL_LIMIT_AFTER_FIRST_S = 6.0      # once a call has hung, the next hanging inputs cost less
+TIMEOUTS = [0]                       # number of ImplTimeout raised so far in this process
+
+
+def limited(fn: Callable, *args: Any, seconds: float | None = None) -> Any:
+    """fn(*args) under an interval timer (main thread only; elsewhere it is a plain call): a fault that makes a writer or reader
+    loop forever (`while todo:` without progress, a tokenizer that does not advance) ends as ImplTimeout instead of a hung check."""
+    import signal
+    import threading
+    import time
+    if threading.current_thread() is not threading.main_thread():
+        return fn(*args)
+    if seconds is None:
+        seconds = IMPL_LIMIT_S if TIMEOUTS[0] == 0 else IMPL_LIMIT_AFTER_FIRST_S
+
+    def on_alarm(signum, frame):
+        TIMEOUTS[0] += 1
+        raise ImplTimeout(f'{getattr(fn, "__name__", "call")} did not return within {seconds:.0f} s')
+    old = signal.signal(signal.SIGALRM, on_alarm)
+    outer_left, _ = signal.setitimer(signal.ITIMER_REAL, seconds)      # nests: an outer limit is re-armed with what is left of it
+    t0 = time.monotonic()
+    try:
+        return fn(*args)
+    finally:
+        signal.setitimer(signal.ITIMER_REAL, 0)
+        signal.signal(signal.SIGALRM, old)
+        if outer_left > 0:
+            signal.setitimer(signal.ITIMER_REAL, max(0.05, outer_left - (time.monotonic() - t0)))
+
+
 def roundtrip(fmt: Fmt, spec: Any) -> tuple[str, str, Any] | None:
     """Run write -> read -> compare -> write again on one spec.  Returns None if the property holds, otherwise
     (stage, detail, info) where stage is one of build-error / write-error / read-error / value-diff / rewrite-error /
     regen-diff and detail names the exception type or the first differing field."""
     try:
-        obj = fmt.build(spec)
-        want = fmt.canon(obj)
+        obj = limited(fmt.build, spec)
+        want = limited(fmt.canon, obj)
+    except ImplTimeout as e:
+        return ('write-error', 'ImplTimeout', 'building the value: ' + str(e))
     except Exception as e:   # the spec is outside what the constructors accept: not a finding
         return ('build-error', type(e).__name__, repr(e)[:300])
     try:
-        out1 = fmt.write(obj)
+        out1 = limited(fmt.write, obj)
     except Exception as e:
         return ('write-error', type(e).__name__, repr(e)[:300])
     try:
-        obj2 = fmt.read(out1)
-        got = fmt.canon(obj2)
+        obj2 = limited(fmt.read, out1)
+        got = limited(fmt.canon, obj2)
     except Exception as e:
         return ('read-error', type(e).__name__, repr(e)[:300])
     d = diff_path(want, got)
     if d is not None:
         return ('value-diff', d, {'first_difference_at': d})
     try:
-        out2 = fmt.write(obj2)
+        out2 = limited(fmt.write, obj2)
     except Exception as e:
         return ('rewrite-error', type(e).__name__, repr(e)[:300])
     if out1 != out2:
@@ -1207,9 +1245,11 @@ def observe(obj: Any, only: tuple[str, str] | None = None) -> list[tuple[str, st
 def observer_check(fmt: 'Fmt', spec: Any) -> tuple[str, str, Any] | None:
     """None if looking at the value never changes what is written; else (stage, detail, info):
     observer-effect:<Class.prop>:built / :read-back, or same-object-rewrite-diff."""
+    if TIMEOUTS[0] >= 3:
+        return None                       # a writer / reader hangs: reported by the plain round trip, do not pile up waiting time
     try:
-        a = fmt.build(spec)
-        out_a = fmt.write(a)
+        a = limited(fmt.build, spec)
+        out_a = limited(fmt.write, a)
     except Exception:
         return None                       # the plain round trip reports these
     try:
